@@ -124,3 +124,20 @@ def s6_lemmas(tier):
                        "filled to any level: the padded copy gives the decoder its 44 readable bytes beyond the cursor, the string buffer is "
                        "grown so that 32 bytes of slack remain behind the copy, offset / buffer flag / length are written as documented",
                   bound="message tail 4..83 bytes, string <= 3 bytes, string buffer 0..41 of 41 bytes used", expect_reach=["S6.parseString"])]
+
+
+FDEEP = ["zz_verif_tape.go", "zz_verif_wf.go", "zz_verif_t1.go", "zz_verif_edit.go", "zz_verif_ser.go", "zz_verif_p3.go", "zz_verif_u1.go", "zz_verif_deep.go"]
+
+
+def deep_lemmas(tier):
+    from .e2.intr_stage2 import DeepIntrinsics
+    ls = []
+    for obj in (0, 1):
+        ls.append(Lemma("Deep.%s" % ("obj" if obj else "arr"), "verifHarness_Deep", FDEEP, splits=[{"obj": obj}], split_depth=1,
+                        intr=DeepIntrinsics, scale={"stringBits": "2"}, opts={"max_depth": 700}, replay_patches=("memhash",),
+                        desc="one maximally nested document (%s, depths 3, 99, 100, 101, 127, 128, 129, 140: around the marshaller's 100-entry "
+                             "stack and the parser's 128-entry scope stack) through the whole stack: parseMessage (kernel = contract), tape "
+                             "format, AdvanceInto walk, MarshalJSON reproduces the text, Interface nests to the same depth, serialize round trip"
+                             % ("alternating objects and arrays" if obj else "arrays"),
+                        bound="nesting depth <= 140, one document shape per depth", expect_reach=["Deep.parsed", "Deep.done"]))
+    return ls
